@@ -357,6 +357,115 @@ theorem viewIter_exact (H : Hier) (c : Name) (out : List Name) (h : viewIter H c
     obtain ⟨b, hb⟩ := Option.isSome_iff_exists.mp hmem
     exact (hinv.done x (seenAll x hx) b hb).1
 
+/-! ## Order of the concealed view: head first, every other item after one of its predecessors -/
+
+/-- `x` is a view successor of some member of `ps` -/
+def HasPredIn (H : Hier) (c : Name) (ps : List Name) (x : Name) : Prop :=
+  ∃ p ∈ ps, ∃ b ts, H.getIn? c p = some b ∧ viewTargets H b = .ok ts ∧ x ∈ ts
+
+/-- every item of `out` other than the first comes after one of its view predecessors -/
+def Ordered (H : Hier) (c : Name) (out : List Name) : Prop :=
+  ∀ i (hi : i < out.length), 0 < i → HasPredIn H c (out.take i) out[i]
+
+theorem hasPredIn_mono (H : Hier) (c : Name) (ps qs : List Name) (x : Name) (h : ∀ p ∈ ps, p ∈ qs)
+    (hp : HasPredIn H c ps x) : HasPredIn H c qs x := by
+  obtain ⟨p, hpm, b, ts, h1, h2, h3⟩ := hp
+  exact ⟨p, h p hpm, b, ts, h1, h2, h3⟩
+
+theorem viewGo_order (H : Hier) (c hd : Name) :
+    ∀ (g : Nat) (queue seen out result : List Name),
+      (∀ x ∈ queue, x = hd ∨ HasPredIn H c out x) →
+      (out = [] ∨ out.head? = some hd) → (hd ∈ seen ∨ out = []) →
+      (∀ x ∈ out, x ∈ seen) →
+      Ordered H c out →
+      viewGo H c g queue seen out = .ok result →
+      Ordered H c result ∧ (result = [] ∨ result.head? = some hd) := by
+  intro g
+  induction g with
+  | zero => intro q s o r _ _ _ _ _ h; simp [viewGo] at h
+  | succ g ih =>
+    intro queue seen out result hq hhd hseen hos hord h
+    cases queue with
+    | nil =>
+      simp only [viewGo, Except.ok.injEq] at h
+      subst h
+      exact ⟨hord, hhd⟩
+    | cons name rest =>
+      simp only [viewGo] at h
+      split at h
+      · exact ih rest seen out result (fun x hx => hq x (List.mem_cons_of_mem _ hx)) hhd hseen hos hord h
+      · next hs =>
+        have hns : name ∉ seen := by simpa [mem, List.contains_iff_mem] using hs
+        split at h
+        · exact ih rest (name :: seen) out result (fun x hx => hq x (List.mem_cons_of_mem _ hx)) hhd
+            (by rcases hseen with e | e
+                · exact Or.inl (List.mem_cons_of_mem _ e)
+                · exact Or.inr e)
+            (fun x hx => List.mem_cons_of_mem _ (hos x hx)) hord h
+        · next b hb =>
+          split at h
+          · simp at h
+          · next ts hts =>
+            refine ih (rest ++ ts) (name :: seen) (out ++ [name]) result ?_ ?_ ?_ ?_ ?_ h
+            · intro x hx
+              rcases List.mem_append.mp hx with e | e
+              · rcases hq x (List.mem_cons_of_mem _ e) with e1 | e1
+                · exact Or.inl e1
+                · exact Or.inr (hasPredIn_mono H c out _ x (fun p hp => List.mem_append.mpr (Or.inl hp)) e1)
+              · exact Or.inr ⟨name, by simp, b, ts, hb, hts, e⟩
+            · right
+              rcases hhd with e | e
+              · -- first emission: it is the head (anything else would need an emitted predecessor)
+                subst e
+                rcases hq name (by simp) with e1 | e1
+                · simp [e1]
+                · obtain ⟨p, hp, _⟩ := e1; simp at hp
+              · cases out with
+                | nil => simp at e
+                | cons o os => simpa using e
+            · rcases hseen with e | e
+              · exact Or.inl (List.mem_cons_of_mem _ e)
+              · subst e
+                rcases hq name (by simp) with e1 | e1
+                · exact Or.inl (by simp [e1])
+                · obtain ⟨p, hp, _⟩ := e1; simp at hp
+            · intro x hx
+              rcases List.mem_append.mp hx with e | e
+              · exact List.mem_cons_of_mem _ (hos x e)
+              · simp only [List.mem_singleton] at e; simp [e]
+            · -- the new last item comes after one of its predecessors
+              intro i hi hpos
+              simp only [List.length_append, List.length_cons, List.length_nil] at hi
+              by_cases hlt : i < out.length
+              · have := hord i hlt hpos
+                rw [List.getElem_append_left hlt]
+                rw [List.take_append_of_le_length (by omega)]
+                exact this
+              · have hieq : i = out.length := by omega
+                subst hieq
+                rw [List.getElem_append_right (by omega)]
+                simp only [Nat.sub_self, List.getElem_cons_zero, List.take_left']
+                rcases hq name (by simp) with e1 | e1
+                · -- the head can only be emitted first
+                  exfalso
+                  rcases hseen with e | e
+                  · exact hns (e1 ▸ e)
+                  · subst e; simp at hpos
+                · exact e1
+
+/-- **Order of the concealed view** (every hierarchy): the first item is the head, and every other
+    item comes after at least one of its view predecessors. -/
+theorem viewIter_order (H : Hier) (c : Name) (out : List Name) (h : viewIter H c = .ok out) :
+    Ordered H c out ∧ (∀ hd, findHead H c = .ok hd → out = [] ∨ out.head? = some hd) := by
+  unfold viewIter at h
+  cases hh : findHead H c with
+  | error e => simp [hh, bind, Except.bind] at h
+  | ok hd =>
+    simp only [hh, bind, Except.bind] at h
+    obtain ⟨h1, h2⟩ := viewGo_order H c hd _ [hd] [] [] out (by simp) (Or.inl rfl) (Or.inr rfl)
+      (by simp) (by intro i hi; simp at hi) h
+    exact ⟨h1, fun hd' e => by simp only [Except.ok.injEq] at e; exact e ▸ h2⟩
+
 /-! Non-vacuity: on a two-level hierarchy the model answers, and the answer is what the theorem
 says (head `0`, the region, the block inside it, then `2`). -/
 def okH2 : Hier := [
